@@ -161,6 +161,15 @@ def history_oracle(case, rng, nhist, rtol=1e-6, points=None):
         return pt
 
     fresh_ok = False
+    if points is not None:
+        # prime: the first matrix / design of the list is fully used (response, seeded sensitivity, reset) before anything else, so
+        # that whatever is detected or allocated "at first use" belongs to it
+        m.response()
+        for so, w in zip(m.sig_out, _zero_cols(rng, case, zoo._make_seeds(rng, m, case, partial=False))):
+            if w is not None:
+                so.sensitivity = zoo.vcopy(w)
+        m.sensitivity()
+        m.reset()
     for _ in range(nhist):
         r = rng.random()
         if r < 0.3:
@@ -284,13 +293,14 @@ def gen_linsolve_cg_magnitudes(rng):
     magnitude by 2^20 and back between the responses; the result may depend on the history to solver tolerance only"""
     pm = _pm()
     from pymoto.solvers import CG
-    n = int(rng.integers(4, 9))
+    n = int(rng.integers(30, 50))      # (large enough that CG does not terminate finitely before the tolerance matters)
     k = [None, 2][int(rng.integers(0, 2))]
     shp = (n,) if k is None else (n, k)
-    C = rng.standard_normal((n, n))
-    A0 = C @ C.T / n + np.eye(n) * 2.0
+    Qo, _ = np.linalg.qr(rng.standard_normal((n, n)))
+    A0 = Qo @ np.diag(np.logspace(0, 3, n)) @ Qo.T
+    A0 = (A0 + A0.T) / 2
     pts = []
-    for e in [20, 0, -20, 0][int(rng.integers(0, 2)):][:3] + [0]:
+    for e in ([20, 0, 20, 0] if rng.random() < 0.5 else [0, -20, 0, -20]):     # (visited cyclically: a drop by 2^20 every other step)
         A = A0 + np.diag(rng.uniform(0.0, 0.5, n))
         pts.append([sps.csc_matrix(A), rng.standard_normal(shp) * 2.0 ** e])
 
@@ -453,7 +463,7 @@ def correspondence(ctx):
     # ---- library modules: history vs fresh instance (property oracle on the real code) -------------
     fams = list(zoo.GENERATORS)
     per = 4 if ctx.quick else 14
-    PER_FAM = {"eigensolve_sparse": 3}      # per-mode adjoint solver caches: more histories
+    PER_FAM = {"eigensolve_sparse": 3, "soe": 2, "staticcond": 2}      # per-mode adjoint solver caches: more histories
     for fam in fams:
         for kk in range(per * PER_FAM.get(fam, 1)):
             case = zoo.generate(fam, nprng, kk + 4 * (ctx.seed % 3))
@@ -481,9 +491,21 @@ def correspondence(ctx):
             ctx.oracle_fail(r[1], {"case": case.name})
         else:
             ctx.distinct.add(("lib", case.name))
-    for _ in range(3 if ctx.quick else 20):
+    for t in range(6 if ctx.quick else 24):
         case, pts = gen_linsolve_cg_magnitudes(nprng)
-        r = call_impl(history_oracle, case, nprng, int(nprng.integers(8, 16)), 1e-6, pts)
+        if t % 2 == 0:
+            # the shortest history with a drop: everything at the large magnitude first (priming), then the small one
+            big = max(range(len(pts)), key=lambda i_: float(np.abs(pts[i_][1]).max()))
+            small = min(range(len(pts)), key=lambda i_: float(np.abs(pts[i_][1]).max()))
+            pts = [pts[big], pts[small]]
+            base_make = case.make
+
+            def make(base_make=base_make, first=pts[0]):
+                mm, ss = base_make()
+                ss[0].state, ss[1].state = zoo.vcopy(first[0]), zoo.vcopy(first[1])
+                return mm, ss
+            case.make = make
+        r = call_impl(history_oracle, case, nprng, 0 if t % 2 == 0 else int(nprng.integers(8, 16)), 1e-6, pts)
         ctx.evaluations += 1
         ctx.branch("lib.linsolve-cg-magnitudes")
         if r[0] == "err":
@@ -493,7 +515,7 @@ def correspondence(ctx):
         else:
             ctx.distinct.add(("lib", case.name))
     for kind in ("soe", "staticcond", "inverse", "eigensolve"):
-        for t in range(6 if ctx.quick else 40):
+        for t in range(8 if ctx.quick else 40):
             case, pts = gen_classchange(nprng, kind, LINSOLVE_PATTERNS[(t + ctx.seed) % 8] if (t + ctx.seed) % 8 < len(LINSOLVE_PATTERNS) else None)
             r = call_impl(history_oracle, case, nprng, int(nprng.integers(6, 16)), 1e-6, pts)
             ctx.evaluations += 1
